@@ -788,3 +788,127 @@ func genPrivate(r *Rng, idx int, tier string, step func(op string) string) {
 	}
 	step("magnet")
 }
+
+func init() {
+	register(&Suite{Name: "crashpoints", NewStepper: newLoopStepper, GenStep: genCrashpoints})
+}
+
+// genCrashpoints: downloads from honest and corrupting peers with gated writes, periodic resume writes,
+// stop/start/verify; at many points the process "dies": a fresh session is opened on a snapshot of the
+// resume database and of the storage (optionally with files missing) and must not claim unwritten pieces.
+func genCrashpoints(r *Rng, idx int, tier string, step func(op string) string) {
+	l := genLayout(r)
+	for l.numPieces() > 6 {
+		l.pl *= 2
+	}
+	o := step(fmt.Sprintf("new pl=%d files=%s cfg.AllowedFastSet=0", l.pl, l.filesArg()))
+	if !strings.HasPrefix(o, "ok") {
+		return
+	}
+	last := step("start")
+	var peers []*scriptPeer
+	nextK := 1
+	gated := false
+	do := func(op string) string {
+		last = step(op)
+		absorb(peers, last)
+		return last
+	}
+	crash := func() {
+		del := ""
+		if r.Chance(35) {
+			del = " delete=" + r.Pick2("all", fmt.Sprint(r.Intn(len(l.lens))))
+		}
+		do("crashcheck" + del)
+	}
+	attach := func(kind string) *scriptPeer {
+		p := &scriptPeer{k: nextK, kind: kind}
+		nextK++
+		peers = append(peers, p)
+		if !strings.HasPrefix(do(fmt.Sprintf("peer k=%d fast=1 ext=0", p.k)), "accepted") {
+			p.closed = true
+			return p
+		}
+		do(fmt.Sprintf("msg p=%d t=haveall", p.k))
+		do(fmt.Sprintf("msg p=%d t=unchoke", p.k))
+		p.unchoked = true
+		return p
+	}
+	steps := 10 + 3*l.numPieces()
+	if tier == "thorough" {
+		steps *= 2
+	}
+	for s := 0; s < steps; s++ {
+		if strings.HasPrefix(last, "hang") || strings.HasPrefix(last, "dead") {
+			return
+		}
+		var live []*scriptPeer
+		for _, p := range peers {
+			if !p.closed {
+				live = append(live, p)
+			}
+		}
+		roll := r.Intn(100)
+		switch {
+		case roll < 18:
+			crash()
+		case roll < 26:
+			do("persist")
+			if r.Chance(60) {
+				crash()
+			}
+		case roll < 32 && !gated:
+			do("gate kind=write on=1")
+			gated = true
+		case roll < 40 && gated:
+			if r.Chance(50) {
+				crash() // write in flight
+			}
+			do("gate kind=write on=0")
+			gated = false
+			if r.Chance(50) {
+				crash() // right after the write completed
+			}
+		case roll < 45:
+			do("stop")
+			for _, p := range peers {
+				p.closed = true
+				p.pending = nil
+			}
+			if r.Chance(50) {
+				crash()
+			}
+			do("start")
+		case roll < 48:
+			do("verify")
+			for _, p := range peers {
+				p.closed = true
+				p.pending = nil
+			}
+			crash()
+			do("start")
+		case len(live) == 0 || (roll < 55 && nextK <= 6):
+			if nextK <= 8 {
+				attach(r.Pick2("honest", "honest", "corrupt"))
+			}
+		default:
+			p := live[r.Intn(len(live))]
+			if len(p.pending) == 0 {
+				continue
+			}
+			q := p.pending[0]
+			p.pending = p.pending[1:]
+			data := "true"
+			if p.kind == "corrupt" && r.Chance(35) {
+				data = "flip"
+			}
+			do(fmt.Sprintf("msg p=%d t=piece i=%d b=%d l=%d data=%s", p.k, q[0], q[1], q[2], data))
+		}
+	}
+	if gated {
+		do("gate kind=write on=0")
+	}
+	crash()
+	do("stop")
+	do("crashcheck")
+}
